@@ -19,7 +19,7 @@ META = {
   "OpenSSL as external reference; data lengths above the bounds (4 KiB, every residue)",
   "dropped after a back-end sweep without verdict: AES CBC decrypt(encrypt(x)) == x with the real cores (1 block, kissat/cadical/z3, 300 s each, all four implementations); full-cipher equivalence aes_big / aes_ct64 == FIPS-197 with 10 rounds (kissat, 420 s) and aes_ct (kissat and cadical, 900 s); aes_small finishes; 2-round decryption cores; real-core splitting law for aes_ct64 cbcdec/ctr/ctrcbc-encrypt/decrypt/ctr (even at 2 blocks) and des_ct 3DES cbcenc; des_tab == des_ct block function and des_ct CBC round trip for 3DES keys",
   "GHASH: bmul (ghash_ctmul.c) and bmul64 kernels vs carry-less reference, one-block equivalence ctmul == ctmul32 == ctmul64 == reference for arbitrary operands (no verdict in 420 s on any back end); only the bmul32 kernel, the unit-vector cases and the padding/chaining structure are decided",
-  "Poly1305: anything beyond the footer-only message for ctmul == ctmul32; poly1305_i15 not decided at all (no verdict even for the footer-only message)",
+  "Poly1305: anything beyond the footer-only message for ctmul == ctmul32 and the r = 1 reference (poly1305-r1-*, final reduction); poly1305_i15 not decided at all (no verdict even for the footer-only message)",
  ],
  "mutants_tried": [
   "M1 aes_ct_ctr.c: second cc++ for a 17..32-byte tail removed (returned counter one short) - caught: modes-aes_ct-ctr split law (bytes + counter), replayed natively",
@@ -248,6 +248,13 @@ def ghash_poly_queries():
     qs.append(Q("poly1305-ctmul-vs-ctmul32-D0-A0", "C12_poly.c", units=P[1] + P[2] + ["src/codec/enc64le.c"],
                 defs=["-DPA=1", "-DPB=2", "-DDLEN=0", "-DALEN=0"], unwind=70, backend="cadical",
                 desc="br_poly1305_ctmul_run == br_poly1305_ctmul32_run, empty data and AAD (one footer block: 2^128 * r mod p + s), every key/nonce (r, s arbitrary via a toy ChaCha20 at the function-pointer seam)"))
+    # final reduction and tag addition against the definition, r = 1 (sum of blocks): every accumulator value near p
+    # is reachable (seeded change C12e: off-by-one in the comparison with p); poly1305_i15: no verdict in 200 s
+    for impl in (1, 2):
+        for dl in (32, 16, 48):
+            qs.append(Q("poly1305-r1-%s-D%d" % (PN[impl], dl), "C12_poly_r1.c", units=P[impl] + ["src/codec/enc64le.c"], defs=["-DIMPL=%d" % impl, "-DDLEN=%d" % dl],
+                        unwind=70, backend="cadical", timeout=200, tier="quick" if dl == 32 else "thorough",
+                        desc="br_poly1305_%s_run == ((sum of padded blocks) mod 2^130-5 + s) mod 2^128 for r = 1 (bounded claim), every s, every %d data bytes: exact final reduction incl. accumulator == p and p+1..p+4" % (PN[impl], dl)))
     return qs
 
 
